@@ -61,6 +61,7 @@ type Obligation struct {
 	ModelVars []string // terms to get-value on sat
 	idxDefined bool    // emit `idx` as a macro instead of an axiomatised symbol
 	noQuant    bool    // probe variant without quantified hypotheses
+	nativeStr  bool    // model-finding variant: Str as SMT-LIB String
 	template   *templateInfo // K6 obligations: the SQL filter this obligation is about
 }
 
@@ -358,8 +359,12 @@ func (g *gen) oblige(kind, name, desc string, pos token.Pos, reach, cond string)
 		o.Pos = fmt.Sprintf("%s:%d", shortFile(p.Filename), p.Line)
 	}
 	g.obls = append(g.obls, o)
-	// after the check, execution continues only if it held
-	g.ctx.assume(implies(reach, cond))
+	// after a panic-class check, execution continues only if it held. A callee's logical precondition is not
+	// assumed afterwards: if it fails, everything downstream that relied on it fails visibly too (an obligation
+	// that is new at a changed call site may be undecidable on its own; the ones it feeds are in the baseline)
+	if kind != "callpre" {
+		g.ctx.assume(implies(reach, cond))
+	}
 	return o
 }
 
